@@ -147,11 +147,11 @@ func runRebCase(c rebCase) (closed int, sig, msg string) {
 		if len(c.Others) == 0 {
 			return closed, "shed-when-alone", "shed connections although no other node is known"
 		}
-		min := int(c.MinConns)
+		min := uint64(c.MinConns) // not int: the configured value may not fit one
 		if min < 1 {
 			min = 1
 		}
-		if c.Local < min {
+		if uint64(c.Local) < min {
 			return closed, "shed-below-min-conns", fmt.Sprintf("shed with %d connections, minimum %d", c.Local, c.MinConns)
 		}
 		if avg > 0 {
@@ -190,7 +190,7 @@ func init() {
 		// can write: either the server refuses them or it sheds within the rules
 		thresholds := []float64{-1, -0.5, 0.25, 0.5, 1, 2}
 		rates := []float64{-0.5, 0, 0.25, 0.5, 1, 2}
-		mins := []uint{0, 1, 3}
+		mins := []uint{0, 1, 3, math.MaxUint} // the largest value the flag accepts
 		maxLocal, maxOthers, maxConns := 6, 2, 4
 		if run.Thorough() {
 			maxOthers = 3
